@@ -222,7 +222,7 @@ def _perturb(v):
 class Ob:
     def __init__(self, name, module, func, params=None, tick_budget=None, allow_opaque=False,
                  split=False, max_paths=200000, timeout_s=None, budget_is_violation=False,
-                 canary=True, fork_cap=4096, exc_ok=False):
+                 canary=True, fork_cap=4096, exc_ok=False, abstract_dicts=False):
         self.name = name
         self.module = module
         self.func = func
@@ -235,6 +235,7 @@ class Ob:
         self.budget_is_violation = budget_is_violation
         self.canary = canary
         self.fork_cap = fork_cap
+        self.abstract_dicts = abstract_dicts
         self.exc_ok = exc_ok  # an exception escaping the harness is acceptable (not a violation)
 
 
@@ -252,7 +253,8 @@ def _run_ob(task):
         deadline = (t0 + ob.timeout_s) if ob.timeout_s else None
         ex = _ex.Explorer(tick_budget=ob.tick_budget or 500000, seed=seed, timeout_ms=solver_timeout_ms,
                           fork_cap=ob.fork_cap, max_paths=path_cap or ob.max_paths,
-                          allow_opaque=ob.allow_opaque, deadline=deadline)
+                          allow_opaque=ob.allow_opaque, deadline=deadline,
+                          abstract_dicts=ob.abstract_dicts)
         ctx = SymCtx(ex, deviations, canary)
 
         def run():
